@@ -52,7 +52,7 @@ def exhaustive(chk, kind, keys, n, eqm, hm, name):
     groups = {}
     for key in nodes:
         groups.setdefault(key[:2], []).append(key)
-    jobs, jmeta = [], {}
+    jobs, jmeta, jrels = [], {}, {}
     for gi, (pre, members) in enumerate(sorted(groups.items())):
         members.sort(key=lambda k: (len(k), k))
         names, lines = {(): "n0"}, [root]
@@ -64,9 +64,30 @@ def exhaustive(chk, kind, keys, n, eqm, hm, name):
             seen.add(key)
             names[key] = "n%d" % len(names)
             lines.append("let %s = %s;\n" % (names[key], step(names[key[:-1]], key[-1])))
+        # relations between versions of equal size: == / <= must follow the abstract values, and equal
+        # collections hash equally - whatever buckets they happen to share
+        bysize = {}
+        for key, nm in names.items():
+            c = nodes.get(key)
+            if c is not None and not c["err"] and len(c["v"]) >= 1:
+                bysize.setdefault(len(c["v"]), []).append((key, nm))
+        rels = []
+        for sz, members2 in sorted(bysize.items()):
+            seen_vals = {}
+            for key, nm in members2:
+                seen_vals.setdefault(json.dumps(nodes[key]["v"]), []).append((key, nm))
+            reps = [v[0] for v in seen_vals.values()]
+            pairs = [(reps[a], reps[b]) for a in range(len(reps)) for b in range(a + 1, len(reps))][:40]
+            pairs += [(v[0], v[-1]) for v in seen_vals.values() if len(v) > 1][:20]      # equal values reached by different histories
+            for (ka, na), (kb, nb) in pairs:
+                rn = "r%d" % len(rels)
+                equal = nodes[ka]["v"] == nodes[kb]["v"]
+                lines.append("let %s = (%s == %s, %s);\n" % (rn, na, nb, "%s.hash() == %s.hash()" % (na, nb) if equal else "true"))
+                rels.append((rn, ka, kb, equal))
         jid = "%s-g%d" % (name, gi)
-        jobs.append({"id": jid, "src": "".join(lines), "observe": list(names.values()), "limits": {"calls": 2000000}, "timeout_ms": 60000})
+        jobs.append({"id": jid, "src": "".join(lines), "observe": list(names.values()) + [r[0] for r in rels], "limits": {"calls": 2000000}, "timeout_ms": 60000})
         jmeta[jid] = names
+        jrels[jid] = rels
     res = vf.run_jobs(jobs, "c17-ex-" + name)
     cls = (lambda x: x) if eqm == 0 else (lambda x: x % eqm)
     tables, checked = [], 0
@@ -100,12 +121,29 @@ def exhaustive(chk, kind, keys, n, eqm, hm, name):
                               (kind, hist, eqm, hm, "an error value" if c["err"] else json.dumps(c["v"]), json.dumps(dv)[:240]),
                               {"kind": "map", "source": j["src"], "binding": nm, "expected": c, "observed": dv},
                               finding_key="history:%s:%s" % (kind, ".".join(op for op, _, _ in key)))
+    nrel = 0
+    for j in jobs:
+        o = res[j["id"]]
+        if vf.job_outcome(o) != "ok":
+            continue
+        for rn, ka, kb, equal in jrels[j["id"]]:
+            nrel += 1
+            chk.count(1)
+            dv = o["values"].get(rn) or {}
+            got = [x.get("v") for x in dv.get("v", [])] if dv.get("t") == "struct" else None
+            if got != [equal, True]:
+                ha = ".".join("%s(%s)" % (op, k) for op, k, v in ka)
+                hb = ".".join("%s(%s)" % (op, k) for op, k, v in kb)
+                chk.violation("%s versions %s = %s and %s = %s (eq mod %d, hash mod %d): (==, equal hashes) expected (%s, true), observed %s" %
+                              (kind, ha, json.dumps(nodes[ka]["v"]), hb, json.dumps(nodes[kb]["v"]), eqm, hm, str(equal).lower(), json.dumps(dv)[:160]),
+                              {"kind": "map", "source": j["src"], "binding": rn, "expected": [equal, True], "observed": dv},
+                              finding_key="history-eq:%s" % kind)
     for t in vf.accept_records(chk, "XrMapRepr", tables, "c17-ex-repr-" + name):
         src = [j["src"] for j in jobs if j["id"] == t["_job"]][0]
         chk.violation("bucket table of %s violates the representation invariant: %s" % (t["_bind"], json.dumps({k2: v for k2, v in t.items() if not k2.startswith("_")})),
                       {"kind": "map-repr", "source": src, "binding": t["_bind"], "table": t})
     chk.part("exhaustive_" + name, kind=kind, keys=len(keys), max_history=n, eq_mod=eqm, hash_mod=hm, histories=len(nodes), versions_read_back=checked,
-             tables_validated=len(tables))
+             relations_checked=nrel, tables_validated=len(tables))
     return len(nodes)
 
 
